@@ -130,7 +130,7 @@ def _work(args):
         nt = rng.choice([15, 30, 45])
         rows = [(str(c), -900.0 + 30.0 * i, float(1500 + 40 * c + (i * 7) % 25 + rng.choice([0, 13])), 1)
                 for i in range(nt) for c in range(nc)]
-        prms = {'BASE_LVL_LOOKBACK_PERC': rng.choice([33, 10, 7, 61]), 'BASE_LVL_HEIGHT_PERC': rng.choice([0, 5, 50, 100])}
+        prms = {'BASE_LVL_LOOKBACK_PERC': rng.choice([33, 10, 7, 61, 12.5, 66.6]), 'BASE_LVL_HEIGHT_PERC': rng.choice([0, 5, 50, 100, 2.5])}
     else:
         rows, prms, meta = pipecheck.gen_scene(seed, k, fam)
     if prop == 'C16' and rng.random() < 0.6:
